@@ -149,6 +149,33 @@ fn function_level(seed: u64, interior: u64, cases: u64) -> Acc {
                 _ => acc.count("estimates_both_err"),
             }
         }
+        // (f) the price bounds the SDK derives for a slippage tolerance (what a client hands to
+        //     increase_liquidity_by_token_amounts_v2): on the safe side of the price they were derived from, inside the
+        //     supported range, and no narrower for a larger tolerance
+        for _ in 0..cases / 400 {
+            let p: u128 = match r.gen_range(0..6) {
+                0 => MIN_SQRT_PRICE_X64 + r.gen_range(0..1000u128),
+                1 => MAX_SQRT_PRICE_X64 - r.gen_range(0..1000u128),
+                2 => table[r.gen_range(0..table.len())] + r.gen_range(0..3u128),
+                _ => rnd::sqrt_price(&mut r),
+            };
+            let mut prev: Option<(u128, u128)> = None;
+            for bps in [0u16, 1, 2, 10, 50, 100, 1000, 5000, 9999, 10000, 20000] {
+                let b = sdk::get_sqrt_price_slippage_bounds(p.into(), bps);
+                let (lo, hi): (u128, u128) = (b.min_sqrt_price.into(), b.max_sqrt_price.into());
+                acc.evaluations += 1;
+                acc.count("slippage_price_bounds_checked");
+                if lo > p || hi < p || lo < MIN_SQRT_PRICE_X64 || hi > MAX_SQRT_PRICE_X64 {
+                    acc.violation("sdk:price_slippage_bounds", format!("get_sqrt_price_slippage_bounds({p}, {bps} bps) = [{lo}, {hi}]: not around the price / outside the supported range"), json!({"sqrt_price": p.to_string(), "bps": bps}));
+                }
+                if let Some((plo, phi)) = prev {
+                    if lo > plo || hi < phi {
+                        acc.violation("sdk:price_slippage_bounds_not_monotone", format!("bounds for {bps} bps [{lo}, {hi}] are narrower than for the smaller tolerance [{plo}, {phi}] at price {p}"), json!({"sqrt_price": p.to_string(), "bps": bps}));
+                    }
+                }
+                prev = Some((lo, hi));
+            }
+        }
         // (e) transfer-fee conversions used by every quote over Token-2022 fee mints: the SDK's apply / reverse-apply
         //     against the program's own calculate_transfer_fee_excluded / included_amount on a real mint account,
         //     all fee rates and caps, amounts up to u64::MAX (incl. the region where amount + fee crosses 2^64)
@@ -525,6 +552,7 @@ fn main() {
     acc.merge(acc2);
     rep.acc = acc;
     rep.floor("ticks_compared", 887_273);
+    rep.floor("slippage_price_bounds_checked", 20_000);
     rep.floor("fee_reverse_both_ok", 50_000);
     rep.floor("fee_reverse_both_ok_above_2_63", 2_000);
     rep.floor("liquidity_quotes_compared", 2_000);
